@@ -49,6 +49,21 @@ macro_rules
   | `(tactic| ilsimp [$ts,*] $loc:location) => `(tactic| simp [exec, BE.ok, BE.eval, IE.ok, IE.eval, FE.ok, FE.eval,
       IOp.eval, cmpInt, CmpOp.eval, BinOp.eval, UnOp.eval, setS_apply, State.error, -List.getD_eq_getElem?_getD, getD_pair_0, getD_pair_1, getD_single_0, $ts,*] $loc)
 
+/-! ### sequencing under control -/
+
+/-- run the first statement to a known state, then continue -/
+theorem exec_seq_eq {fuel : Nat} {a b : St} {s s1 : State F} (h : exec fuel a s = s1) :
+    exec fuel (.seq a b) s = if s1.ctl = .run then exec fuel b s1 else s1 := by
+  rw [exec]; simp only [h]
+
+theorem exec_seq_run {fuel : Nat} {a b : St} {s s1 : State F} (h : exec fuel a s = s1) (hc : s1.ctl = .run) :
+    exec fuel (.seq a b) s = exec fuel b s1 := by
+  rw [exec_seq_eq h, if_pos hc]
+
+theorem exec_scope_eq {fuel : Nat} {a : St} {s s1 : State F} (h : exec fuel a s = s1) :
+    exec fuel (.scope a) s = if s1.ctl = .ret then { s1 with ctl := .run } else s1 := by
+  rw [exec]; simp only [h]
+
 /-! ### renamings -/
 
 /-- an injective renaming of variable names -/
